@@ -13,7 +13,9 @@ def nontrivial(req, obs):
 
 PROP = {
     "id": "C13",
-    "lean_targets": ["WmModel.Props.C13", "WmModel.Props.C13Tie"],
+    "lean_targets": ["WmModel.Props.C13", "WmModel.Props.C13Tie", "WmModel.Props.C13Router", "WmModel.Props.C02Tie"],
+    # the Router settle rule is derived from the handleMessage model: its body is re-extracted and its tie re-proved here too
+    "extract_also": ["C02"],
     "audit_module": "Audit.C13",
     "theorems": [
         "Wm.Poison.poisonKeys_distinct", "Wm.Poison.lookup_stamp",
@@ -26,8 +28,10 @@ PROP = {
         "Wm.Poison.stream_eq_map", "Wm.Poison.stream_publishes_once_each",
         "Wm.Poison.stateful_filter_consulted_once", "Wm.Poison.stateful_eq_pure",
         "Wm.Poison.stateful_acked_implies_handled_or_poisoned", "Wm.Poison.stateful_verdict", "Wm.Poison.budget_filter_stream",
+        # the Router's settle rule derived from the C02/C03 models (Props/C13Router.lean)
+        "Wm.Poison.routerSettle_eq_handle", "Wm.Poison.routerSettle_eq_handle_panic", "Wm.Poison.acked_by_handleMessage_implies_handled_or_poisoned",
     ],
-    "tie_theorems": ["Wm.GoPoison.extracted_middleware_eq_model"],
+    "tie_theorems": ["Wm.GoPoison.extracted_middleware_eq_model", "Wm.GoHandle.handle_skeleton_eq_model", "Wm.GoHandle.publish_skeleton_eq_model"],
     "harness": "c13",
     "race": True,
     "driver": "drv_c13",
